@@ -14,6 +14,13 @@ Input space (every dimension is crossed with the batch parameters):
   * which other options of the tag are combined with the batch: reverse, reverse_expr (true / false),
     sort, sort_expr (ascending / descending), mapping, no_push_item, prefix, skip_unauthorized, and the
     `next` / `previous` forms of the tag (body rendered once for the neighbouring batch);
+  * which template class renders the tag: the plain one, or one with a security policy (`guarded_getitem`, as
+    Zope's DTML methods have) that refuses every subset of the elements of the window and its neighbours (nothing,
+    the first, the last, inner ones, both ends, a run at the front / at the end, everything), with and without
+    skip_unauthorized; the policy reaches the tag directly, through a plain sub-template called by the restricted
+    one (two template classes in one rendering) or through `<dtml-with … only>` (a fresh namespace that inherits
+    the policy).  There every displayed row is read in full: numbers, elements, the four position flags and every
+    link / step variable;
   * what is read: the displayed numbers AND the displayed elements (compared with the window of the
     sequence ordered by Python), the -number / -index / -size spellings of the links, the step
     variables, and the `next-batches` / `previous-batches` lists (the links followed to the end / to
@@ -40,6 +47,63 @@ def shared_template(src):
     t = _TEMPLATES.get(src)
     if t is None:
         t = _TEMPLATES[src] = HTML(src)
+    return t
+
+
+# ----------------------------------------------------------------------------
+# template classes with a security policy
+
+POLICY = {'refused': frozenset(), 'log': []}     # what the policy of the rendering in progress refuses / was asked
+WHERES = ('direct', 'sub', 'with_only')
+_RESTRICTED = []
+
+
+def item_identity(v):
+    if isinstance(v, tuple) and len(v) == 2:
+        v = v[1]
+    return ident(v)
+
+
+def restricted_class():
+    """a template class with a security policy, like Zope's DTML methods: items are fetched through
+    guarded_getitem, which refuses the elements named in POLICY (by identity of the element, not by position)"""
+    if not _RESTRICTED:
+        from DocumentTemplate import HTML
+        from zExceptions import Unauthorized
+
+        class RestrictedHTML(HTML):
+            def guarded_getitem(self, ob, index):
+                v = ob[index]
+                POLICY['log'].append(index)
+                if item_identity(v) in POLICY['refused']:
+                    raise Unauthorized('item %r' % (index,))
+                return v
+        _RESTRICTED.append(RestrictedHTML)
+    return _RESTRICTED[0]
+
+
+def policy_template(src, where):
+    """the callable that renders `src` under the policy: `where` = how the policy reaches the tag"""
+    key = (src, where)
+    t = _TEMPLATES.get(key)
+    if t is not None:
+        return t
+    R = restricted_class()
+    if where == 'direct':
+        tm = R(src)
+        t = lambda kw: tm(**kw)                                   # noqa: E731
+    elif where == 'sub':
+        # two template classes in one rendering: the restricted template calls a plain one by name; the
+        # namespace (and with it the policy) is the caller's
+        outer, inner = R('<dtml-var c11inner>'), shared_template(src)
+        t = lambda kw: outer(c11inner=inner, **kw)                # noqa: E731
+    elif where == 'with_only':
+        # a fresh namespace that holds nothing but the mapping; it inherits the policy
+        tm = R('<dtml-with c11ns mapping only>%s</dtml-with>' % src)
+        t = lambda kw: tm(c11ns=dict(kw))                         # noqa: E731
+    else:
+        raise ValueError(where)
+    _TEMPLATES[key] = t
     return t
 
 
@@ -264,6 +328,7 @@ def observe(L, params, via_vars=False, lazy=False, kind=None, mods=NOMODS):
     """Render a batched dtml-in over a sequence of length L with the real code and return
     the observation dict."""
     kind = kind or ('iter' if lazy else 'list')
+    policy = mods.get('policy')
     attrs = []
     kw = {}
     for k in ('start', 'end', 'size', 'orphan', 'overlap'):
@@ -305,7 +370,8 @@ def observe(L, params, via_vars=False, lazy=False, kind=None, mods=NOMODS):
             except KeyError:
                 row['key'] = None
         edge = not rows or row['sequence-end'] or row['sequence-number'] is None
-        if edge:
+        if edge or policy is not None:
+            # (under a security policy every row is read in full)
             for key in EDGE_KEYS:
                 try:
                     row[key] = md.getitem(key, 0)
@@ -313,7 +379,7 @@ def observe(L, params, via_vars=False, lazy=False, kind=None, mods=NOMODS):
                     row[key] = None
             sz = row['sequence-step-size']
             # (asked on the first and the last displayed element only: the tag keeps a list once it was computed)
-            if lists_ok and isinstance(sz, int) and sz > overlap:
+            if edge and lists_ok and isinstance(sz, int) and sz > overlap:
                 row['nb'] = read_batches(md, 'next-batches')
                 row['pb'] = read_batches(md, 'previous-batches')
         rows.append(row)
@@ -321,6 +387,13 @@ def observe(L, params, via_vars=False, lazy=False, kind=None, mods=NOMODS):
     src = '<dtml-in seq %s><dtml-call "rec(_)"><dtml-else>EMPTY</dtml-in>' % ' '.join(attrs)
     elems = elements(L, kind, mods.get('elem'))
     seq = container(kind, elems)
+    if policy is not None:
+        disp = expected_display(elems, mods)
+        POLICY['refused'] = frozenset(disp[i - 1][1] for i in policy.get('refuse', ()) if 1 <= i <= len(disp))
+        POLICY['log'] = []
+        render = policy_template(src, policy.get('where', 'direct'))
+    else:
+        render = None
     # CPU time of this process, not wall-clock time: a loaded machine must not look like a hanging rendering
     old = signal.signal(signal.SIGVTALRM, _alarm)
     # a rendering takes milliseconds; one that has not returned after 2 s is taken not to terminate (once a few
@@ -328,20 +401,29 @@ def observe(L, params, via_vars=False, lazy=False, kind=None, mods=NOMODS):
     limit = 3.0 if HANGS[0] < 3 else 1.0
     signal.setitimer(signal.ITIMER_VIRTUAL, limit)
     try:
-        out = shared_template(src)(seq=seq, rec=rec, **kw)
+        if render is not None:
+            out = render(dict(kw, seq=seq, rec=rec))
+        else:
+            out = shared_template(src)(seq=seq, rec=rec, **kw)
     except Hang:
         HANGS[0] += 1
         return {'exc': 'Hang (no result after %.2f s of CPU time)' % limit, 'src': src}
     except Exception as e:  # noqa
+        if policy is not None:
+            return {'exc': type(e).__name__, 'src': src, 'policy': policy, 'rows': rows, 'asked': list(POLICY['log'])}
         return {'exc': type(e).__name__, 'src': src}
     finally:
         signal.setitimer(signal.ITIMER_VIRTUAL, 0)
         signal.signal(signal.SIGVTALRM, old)
+        POLICY['refused'] = frozenset()
     touched = None
     if kind not in ('iter', 'gen', 'range'):
         now = list(seq._d) if isinstance(seq, NegSeq) else list(seq)
         if len(now) != len(elems) or any(a is not b and a != b for a, b in zip(now, elems)):
             touched = [ident(x) if not isinstance(x, tuple) else x for x in now][:20]
+    if policy is not None and not mods.get('mode'):
+        return {'src': src, 'policy': policy, 'empty': out == 'EMPTY', 'rows': rows, 'out': out[:40],
+                'touched': touched, 'asked': list(POLICY['log'])}
     if out == 'EMPTY':
         return {'empty': True, 'src': src, 'touched': touched}
     if mods.get('mode'):
@@ -402,6 +484,47 @@ def compare(obs, m):
         return 'next link: impl %s..%s model %s..%s' % (obs['nstart'], obs['nend'], m['nstart'], m['nend'])
     if obs['sz'] != m['size']:
         return 'size: impl %s model %s' % (obs['sz'], m['size'])
+    return None
+
+
+def compare_policy(obs, m, mods):
+    """a rendering under a security policy vs the model's window and links: the rows displayed are the elements of
+    the model's window the policy allows; the flags and links on the first / last element of the window are the
+    model's"""
+    if obs.get('exc', '').startswith('Hang'):
+        return 'impl raised %s' % obs['exc']
+    if obs.get('empty'):
+        return None  # L == 0
+    st, e = m['start'], m['end']
+    skip = bool(mods.get('skip_unauthorized'))
+    refused = sorted(i for i in set(mods['policy'].get('refuse', ())) if st <= i <= e)
+    if refused and not skip:
+        if obs.get('exc') != 'Unauthorized':
+            return 'refused element %d in the model window %d..%d: impl %s' % (refused[0], st, e, obs.get('exc') or 'rendered')
+        visible = list(range(st, refused[0]))
+    else:
+        if 'exc' in obs:
+            return 'impl raised %s' % obs['exc']
+        visible = [i for i in range(st, e + 1) if i not in refused]
+    rows = obs['rows']
+    nums = [r['sequence-number'] for r in rows]
+    if nums != visible:
+        return 'window: impl %s model %d..%d without %s' % (nums[:20], st, e, refused)
+    for n, r in zip(nums, rows):
+        if n == st:
+            if bool(r['previous-sequence']) != m['prev']:
+                return 'flags: impl prev=%s model prev=%s' % (r['previous-sequence'], m['prev'])
+            if m['prev'] and (r['previous-sequence-start-number'], r['previous-sequence-end-number']) != (m['pstart'], m['pend']):
+                return 'prev link: impl %s..%s model %s..%s' % (
+                    r['previous-sequence-start-number'], r['previous-sequence-end-number'], m['pstart'], m['pend'])
+        if n == e:
+            if bool(r['next-sequence']) != m['next']:
+                return 'flags: impl next=%s model next=%s' % (r['next-sequence'], m['next'])
+            if m['next'] and (r['next-sequence-start-number'], r['next-sequence-end-number']) != (m['nstart'], m['nend']):
+                return 'next link: impl %s..%s model %s..%s' % (
+                    r['next-sequence-start-number'], r['next-sequence-end-number'], m['nstart'], m['nend'])
+        if r['sequence-step-size'] != m['size']:
+            return 'size: impl %s model %s' % (r['sequence-step-size'], m['size'])
     return None
 
 
@@ -547,6 +670,8 @@ def oracle(L, params, obs, kind='list', mods=NOMODS):
         bad.append("the caller's sequence was changed by the rendering: now %s" % (obs['touched'],))
     if mods.get('mode'):
         return bad + mode_oracle(L, params, obs, kind, mods)
+    if mods.get('policy') is not None:
+        return bad + policy_oracle(L, params, obs, kind, mods)
     if L == 0:
         if not obs.get('empty'):
             bad.append('empty sequence did not render the else body: %r' % (obs,))
@@ -621,6 +746,119 @@ def oracle(L, params, obs, kind='list', mods=NOMODS):
             bad += check_prev_list(L, s, (obs['pstart'], obs['pend']), obs['pb'], params)
         elif obs['pb']:
             bad.append('previous-batches %s although nothing precedes' % (obs['pb'][:4],))
+    return bad
+
+
+def policy_oracle(L, params, obs, kind, mods):
+    """A batched dtml-in rendered by a template class whose security policy refuses the elements at the (display)
+    positions R.  The window s..e is the one the property determines from the parameters (the policy has no say in
+    it); what is displayed are the elements of the window the policy allows, in order, under their own numbers:
+    all of them with skip_unauthorized, else the ones before the first refused one, and then Unauthorized is raised.
+    On every displayed row: previous-sequence is true exactly on element s when elements precede, next-sequence
+    exactly on element e when elements remain, sequence-start / sequence-end exactly on s / e; wherever a link
+    variable is defined it names the neighbouring batch of the WINDOW (next starts at e+1-overlap and ends by the
+    window rule, previous ends at s-1+overlap), its -index / -size spellings agree, and it is defined where the flag
+    is true; the step variables name the window.
+    Not judged (the property text can be read either way): whether the first displayed element takes over
+    previous-sequence / sequence-start when element s itself is hidden, and the last displayed one next-sequence /
+    sequence-end when element e is hidden; every other row is judged."""
+    policy = mods['policy']
+    skip = bool(mods.get('skip_unauthorized'))
+    if obs.get('exc', '').startswith('Hang'):
+        return ['rendering raised %s' % obs['exc']]
+    if L == 0:
+        if 'exc' in obs or not obs.get('empty'):
+            return ['empty sequence did not render the else body: %r' % (obs,)]
+        return []
+    w = expected_window(L, params)
+    if w is None:
+        return []
+    s, e = w
+    refused = sorted(i for i in set(policy.get('refuse', ())) if s <= i <= e)
+    bad = []
+    if refused and not skip:
+        visible = list(range(s, refused[0]))
+        if obs.get('exc') != 'Unauthorized':
+            return ['element %d of the window %d..%d is refused by the policy and skip_unauthorized is not given: '
+                    'expected Unauthorized, got %s' % (refused[0], s, e,
+                                                       obs.get('exc') or 'a rendering of %d rows' % len(obs['rows']))]
+    else:
+        visible = [i for i in range(s, e + 1) if i not in refused]
+        if 'exc' in obs:
+            return ['rendering raised %s (refused: %s, skip_unauthorized: %s)' % (obs['exc'], refused, skip)]
+        if obs.get('empty') and visible:
+            return ['non-empty window rendered the else body']
+    rows = obs['rows']
+    nums = [r['sequence-number'] for r in rows]
+    if nums != visible:
+        return ['displayed elements %s; the window is %d..%d, the policy refuses %s%s: expected %s' % (
+            nums[:30], s, e, refused, ' (skipped)' if skip else '', visible[:30])]
+    disp = expected_display(elements(L, kind, mods.get('elem')), mods)
+    want_items = [disp[i - 1][1] for i in visible]
+    if [r['item'] for r in rows] != want_items:
+        bad.append('elements displayed as %s: %s, the sequence has %s there' % (
+            nums[:12], [r['item'] for r in rows][:12], want_items[:12]))
+    if mods.get('elem') == 'pair' and [r.get('key') for r in rows] != [disp[i - 1][0] for i in visible]:
+        bad.append('sequence-key on %s: %s' % (nums[:12], [r.get('key') for r in rows][:12]))
+    size, orphan, overlap = eff(params, 'size'), eff(params, 'orphan'), eff(params, 'overlap')
+    want_pend = min(L, s - 1 + overlap)
+    want_nstart = max(1, e + 1 - overlap)
+    for n, row in zip(nums, rows):
+        for flag, at, cond in (('previous-sequence', s, s > 1), ('sequence-start', s, True),
+                               ('next-sequence', e, e < L), ('sequence-end', e, True)):
+            got = bool(row[flag])
+            # (a skipped boundary element: whether its neighbour takes the flag over is not judged)
+            takes_over = skip and at in refused and n == (nums[0] if at == s else nums[-1])
+            if n == at:
+                if got != cond:
+                    bad.append('%s=%s on element %d (window %d..%d of %d, refused %s)' % (flag, got, n, s, e, L, refused))
+            elif got and not takes_over:
+                bad.append('%s true on element %d, which is not the %s of the window %d..%d (refused %s; displayed %s)'
+                           % (flag, n, 'first' if at == s else 'last', s, e, refused, nums[:12]))
+        if (row['sequence-step-start-index'], row['sequence-step-end-index']) != (s - 1, e - 1):
+            bad.append('sequence-step-start/end-index %s..%s on element %d, window is %d..%d' % (
+                row['sequence-step-start-index'], row['sequence-step-end-index'], n, s, e))
+        if size >= 1 and row['sequence-step-size'] != size:
+            bad.append('sequence-step-size %s on element %d, size given %d' % (row['sequence-step-size'], n, size))
+        ps, pe = row['previous-sequence-start-number'], row['previous-sequence-end-number']
+        ns, ne = row['next-sequence-start-number'], row['next-sequence-end-number']
+        if row['previous-sequence'] and (ps is None or pe is None):
+            bad.append('previous-sequence true on element %d but the previous batch is not announced' % n)
+        if row['next-sequence'] and (ns is None or ne is None):
+            bad.append('next-sequence true on element %d but the next batch is not announced' % n)
+        if (ps is not None or pe is not None) and overlap >= 0:
+            if s == 1:
+                bad.append('previous batch %s..%s announced on element %d although the window starts at 1' % (ps, pe, n))
+            elif not isinstance(ps, int) or not isinstance(pe, int):
+                bad.append('previous batch %s..%s on element %d is not a pair of numbers' % (ps, pe, n))
+            elif pe != want_pend or not 1 <= ps <= pe:
+                bad.append('previous batch %s..%s on element %d, expected to end at start-1+overlap=%d' % (
+                    ps, pe, n, want_pend))
+            elif (row['previous-sequence-start-index'], row['previous-sequence-end-index'],
+                  row['previous-sequence-size']) != (ps - 1, pe - 1, pe - ps + 1):
+                bad.append('previous-sequence-start-index/-end-index/-size on element %d disagree with %s..%s' % (n, ps, pe))
+        if (ns is not None or ne is not None) and overlap >= 0:
+            if e == L:
+                bad.append('next batch %s..%s announced on element %d although the window ends at the last element' % (
+                    ns, ne, n))
+            elif not isinstance(ns, int) or not isinstance(ne, int):
+                bad.append('next batch %s..%s on element %d is not a pair of numbers' % (ns, ne, n))
+            elif ns != want_nstart or not ns <= ne <= L:
+                bad.append('next batch %s..%s on element %d, expected to start at end+1-overlap=%d' % (
+                    ns, ne, n, want_nstart))
+            elif size >= 1 and ne != window_end(L, ns, size, orphan):
+                bad.append('next batch %s..%s on element %d should end at %d (size %d orphan %d)' % (
+                    ns, ne, n, window_end(L, ns, size, orphan), size, orphan))
+            elif (row['next-sequence-start-index'], row['next-sequence-end-index'],
+                  row['next-sequence-size']) != (ns - 1, ne - 1, ne - ns + 1):
+                bad.append('next-sequence-start-index/-end-index/-size on element %d disagree with %s..%s' % (n, ns, ne))
+        # the batch lists, where the tag was asked for them: on the rows that carry the flag they are the links followed
+        if n == e and 'nb' in row and isinstance(ns, int) and isinstance(ne, int) and e < L:
+            bad += check_next_list(L, e, (ns, ne), row['nb'], params)
+        if n == s and 'pb' in row and isinstance(ps, int) and isinstance(pe, int) and s > 1:
+            bad += check_prev_list(L, s, (ps, pe), row['pb'], params)
+        if len(bad) > 6:
+            break
     return bad
 
 
@@ -886,6 +1124,173 @@ def mode_cases(tier, r):
         yield L, random_params(r, L, well=True), r.choice(VIAS), kind, m
 
 
+def refusal_patterns(L, s, e):
+    """which elements a policy refuses, relative to the window s..e of a sequence of length L (display positions):
+    nothing, each end, both ends, runs at either end, inner elements, everything, and the neighbours outside"""
+    mid = (s + e) // 2
+    pats = [[], [s], [e], [s, e], [s, s + 1], [e - 1, e], [s + 1], [e - 1], [mid], [s, mid], list(range(s, mid + 1)),
+            list(range(mid, e + 1)), list(range(s, e + 1)), [s - 1], [e + 1], [s - 1, e + 1], [s - 1, s], [e, e + 1],
+            list(range(s + 1, e)), list(range(1, s)) + list(range(e + 1, L + 1))]
+    out, seen = [], set()
+    for pat in pats:
+        pat = sorted({i for i in pat if 1 <= i <= L and (s <= i <= e or i in (s - 1, e + 1) or len(pat) > 2)})
+        if tuple(pat) not in seen:
+            seen.add(tuple(pat))
+            out.append(pat)
+    return out
+
+
+def policy_cases(tier, r):
+    """template classes with a security policy x refused elements x skip_unauthorized x batch windows (the windows
+    the property determines), crossed with how the policy reaches the tag, the containers and the other options"""
+    quick = tier == 'quick'
+    n = 0
+    for L in ((1, 2, 3, 5, 8) if quick else range(1, 13)):
+        for start in range(1, L + 1):
+            for size in ((1, 2, 3, 4, 7) if quick else range(1, 8)):
+                for orphan, overlap in (((0, 0), (2, 1)) if quick else ((0, 0), (2, 1), (1, 0), (0, 2), (3, 3))):
+                    p = {'start': start, 'size': size, 'orphan': orphan, 'overlap': overlap}
+                    s, e = expected_window(L, p)
+                    for pat in refusal_patterns(L, s, e):
+                        for skip in (True, False):
+                            n += 1
+                            mods = {'policy': {'refuse': pat, 'where': WHERES[n % 3 if n % 7 < 3 else 0]}}
+                            if skip:
+                                mods['skip_unauthorized'] = True
+                            yield L, dict(p), (False if n % 5 else r.choice(VIAS)), 'list', mods
+    for _ in range(4000 if quick else 60000):
+        L = r.choice([1, 2, 3, 4, 5, 7, 9, 10, 14, 15, 40])
+        kind = r.choice(KINDS)
+        m = random_mods(r, kind, plain=0.3)
+        m.pop('skip_unauthorized', None)
+        if r.random() < 0.65:
+            m['skip_unauthorized'] = True
+        p = random_params(r, L, well=True)
+        w = expected_window(L, p)
+        s, e = w if w else (1, L)
+        c = r.random()
+        if c < 0.6:
+            pat = r.choice(refusal_patterns(L, s, e))
+        elif c < 0.8:
+            pat = sorted(r.sample(range(s, e + 1), r.randint(1, e - s + 1)))
+        else:
+            pat = sorted(r.sample(range(1, L + 1), r.randint(0, min(L, 5))))
+        m['policy'] = {'refuse': pat, 'where': r.choice(WHERES)}
+        if r.random() < 0.08:
+            m['mode'] = r.choice(('next', 'previous'))     # the policy has no say in the neighbouring batches
+        yield L, p, r.choice(VIAS), kind, m
+
+
+SLICE_VARS = ('sequence-number', 'sequence-index', 'sequence-start', 'sequence-end', 'previous-sequence',
+              'next-sequence', 'previous-sequence-start-number', 'previous-sequence-end-number',
+              'next-sequence-start-number', 'next-sequence-end-number', 'previous-sequence-size', 'next-sequence-size',
+              'sequence-step-size', 'sequence-step-start-index', 'sequence-step-end-index')
+
+
+def interp_policy_cases(tier, r):
+    """programs for the Lean INTERPRETER (Render.inx_ / inLoopB with the item guard): one batched dtml-in over
+    instances, rendered by a template class whose policy refuses some of them, with and without skip_unauthorized;
+    the body prints every batch variable of every displayed row.  Compared: result (or Unauthorized), the ordered
+    log of what the policy was asked, namespace events."""
+    import proggen
+    quick = tier == 'quick'
+
+    def case(L, batch, refuse, skip, sort=False, reverse=False, prefix=False, no_push=False, caught=False, names=()):
+        order = list(range(L))
+        keys = [(i * 5 + 3) % 11 for i in range(L)]          # distinct for L <= 11, in no monotone order
+        if sort:
+            order.sort(key=lambda i: keys[i])
+        if reverse:
+            order.reverse()
+        items = [{'o': i + 1, 'a': [['k', keys[i]], ['p', {'s': 'e%d' % (i + 1)}]]} for i in range(L)]
+        body = [['lit', '[']]
+        for v in SLICE_VARS:
+            body += [['var', ['n', ('pf_' + v[9:]) if prefix and v in ('sequence-index', 'sequence-start', 'sequence-end')
+                              else v], False, 'M', None], ['lit', ' ']]
+        body += [['var', ['n', 'p'], False, 'M', None], ['lit', ']']]
+        opts = {}
+        if skip:
+            opts['skip'] = True
+        if prefix:
+            opts['prefix'] = 'pf'
+        if no_push:
+            opts['noPush'] = True
+        x = {'batch': {k: v for k, v in batch.items() if v}}
+        kw = [['seq3', {'l': items}]]
+        if names:
+            x['names'] = []
+            for pname in names:
+                if pname in x['batch']:
+                    kw.append(['b' + pname, x['batch'].pop(pname)])
+                    x['names'].append([pname, 'b' + pname])
+        if sort:
+            x['sort'] = 'k'
+        if reverse:
+            x['reverse'] = True
+        blocks = [['inx', ['n', 'seq3'], opts, x, body, [['lit', 'EMPTY']]]]
+        if caught:
+            blocks = [['try', blocks, [['', [['lit', 'CAUGHT']]]], None], ['lit', '.']]
+        return {'templates': [{'blocks': blocks, 'globals': [], 'vars': [], 'source': proggen.print_blocks(blocks)}],
+                'main': 0, 'clients': [], 'mapping': [], 'kw': kw, 'classes': proggen.class_table(), 'denied': [],
+                'guard': True, 'utf8': True,
+                # refused: the elements at these display positions
+                'deniedItems': [order[i - 1] + 1 for i in refuse if 1 <= i <= L]}
+    n = 0
+    for L in ((1, 3, 6) if quick else range(1, 9)):
+        for start in range(1, L + 1):
+            for size in ((1, 3, 4) if quick else range(1, 6)):
+                for orphan, overlap in (((0, 0), (2, 1)) if quick else ((0, 0), (2, 1), (1, 2))):
+                    p = {'start': start, 'size': size, 'orphan': orphan, 'overlap': overlap}
+                    s, e = expected_window(L, p)
+                    for pat in refusal_patterns(L, s, e):
+                        n += 1
+                        if quick and n % 3 and pat not in ([s], [e]):
+                            continue
+                        yield case(L, p, pat, skip=n % 4 != 0, sort=n % 5 == 0, reverse=n % 7 == 0, prefix=n % 6 == 0,
+                                   no_push=n % 11 == 0, caught=n % 4 == 0, names=('start', 'size')[:n % 3])
+    for _ in range(500 if quick else 6000):
+        L = r.randint(1, 10)
+        p = random_params(r, L, well=True)
+        p = {k: v for k, v in p.items() if isinstance(v, int)}
+        s, e = expected_window(L, p)
+        if r.random() < 0.7:
+            pat = r.choice(refusal_patterns(L, s, e))
+        else:
+            pat = sorted(r.sample(range(1, L + 1), r.randint(0, min(L, 4))))
+        if r.random() < 0.1:
+            p[r.choice(('next', 'previous'))] = True
+        yield case(L, p, pat, skip=r.random() < 0.7, sort=r.random() < 0.3, reverse=r.random() < 0.3,
+                   prefix=r.random() < 0.2, no_push=r.random() < 0.1, caught=r.random() < 0.3,
+                   names=r.sample(('start', 'end', 'size', 'orphan', 'overlap'), r.randint(0, 2)))
+
+
+def interp_policy_slice(res, tier):
+    """correspondence of the interpreter model with the real classes on the programs of interp_policy_cases"""
+    import interp
+    cases = list(interp_policy_cases(tier, common.rng('C11-policy-interp')))
+    res.have_driver = True
+    compared = 0
+    for (c, plan, impl, m) in interp.run_cases(res, cases):
+        res.evaluations += 1
+        if m is None:
+            continue
+        d = interp.compare(impl, m)
+        if d == 'oom':
+            res.count('policy_slice_outside_model')
+            continue
+        compared += 1
+        res.corr_checked += 1
+        res.count('policy_slice_compared')
+        if 'raise' in impl['result']:
+            res.count('policy_slice_raised_%s' % impl['result']['raise'])
+        if d:
+            res.corr_mismatch.append({'case': {'source': c['templates'][0]['source'], 'kw': c['kw'],
+                                               'deniedItems': c['deniedItems'],
+                                               'slice': 'batched dtml-in under a security policy'},
+                                      'impl': impl['result'], 'model': m['result'], 'diff': d})
+    return compared
+
+
 def case_dict(L, p, via, kind, mods, obs=None):
     d = {'len': L, 'params': p, 'via_vars': via, 'kind': kind, 'mods': mods}
     if obs is not None:
@@ -908,7 +1313,16 @@ def run(res, tier, have_driver):
                 'sort_expr, asc/desc, mapping, no_push_item, prefix, skip_unauthorized} x windows biased to '
                 'the end of the sequence; parameters as literals, int variables, numeric strings, callables; '
                 'the caller\'s sequence must be unchanged.  Mode cases: the `next` / `previous` forms of the '
-                'tag (body once iff the neighbouring batch exists, links as announced).  Tiling histories '
+                'tag (body once iff the neighbouring batch exists, links as announced).  Security-policy cases: '
+                'a template class with guarded_getitem refusing {nothing, first, last, both ends, runs at either end, '
+                'inner elements, the whole window, the neighbours outside it, random subsets} x skip_unauthorized '
+                'given / not given x policy reaching the tag {directly, through a plain sub-template of the '
+                'restricted one, through dtml-with only} x containers x options x parameter forms, on the windows '
+                'the property determines; every displayed row is read in full: displayed = the allowed elements of '
+                'the window under their own numbers (Unauthorized at the first refused one without '
+                'skip_unauthorized), previous-/next-sequence and sequence-start/-end only on the first / last '
+                'element of the window, links and step variables those of the window on every row where defined.  '
+                'Tiling histories '
                 'also over containers/options, with the elements shown and the batch lists compared with '
                 'the windows visited.  Compiled templates are shared by all cases (every template is '
                 'rendered again with other data).  non-trivial = distinct (len,params,container,options) '
@@ -938,6 +1352,8 @@ def run(res, tier, have_driver):
     cases.extend(option_cases(tier, r))
     n_opt = len(cases)
     cases.extend(mode_cases(tier, r))
+    n_mode = len(cases)
+    cases.extend(policy_cases(tier, common.rng('C11-policy')))
     reqs = []
     obss = []
     for n, (L, p, via, kind, mods) in enumerate(cases):
@@ -949,11 +1365,24 @@ def run(res, tier, have_driver):
                    'call': 'via_callable_vars'}[via])
         res.count('lazy' if kind in ('iter', 'gen') else 'list')
         res.count('cases_base' if n < n_base else 'cases_container_x_options' if n < n_opt
-                  else 'cases_next_previous_form')
+                  else 'cases_next_previous_form' if n < n_mode else 'cases_security_policy')
+        if n >= n_mode:
+            pol = mods['policy']
+            w = expected_window(L, p)
+            hid = [i for i in pol['refuse'] if w and w[0] <= i <= w[1]]
+            res.count('policy via %s' % pol['where'])
+            res.count('policy refuses %s of the window%s' % (
+                'nothing' if not hid else 'the first element' if hid == [w[0]] else 'the last element' if hid == [w[1]]
+                else 'all' if len(hid) == w[1] - w[0] + 1 else 'both ends' if w[0] in hid and w[1] in hid
+                else 'the first and more' if w[0] in hid else 'the last and more' if w[1] in hid else 'inner elements',
+                ', skipped' if mods.get('skip_unauthorized') else ''))
+            if obs.get('exc') == 'Unauthorized':
+                res.count('policy_rendering_refused')
         if n >= n_base:
             res.count('container=' + kind)
             for k, v in mods.items():
-                res.count('option %s=%s' % (k, v))
+                if k != 'policy':        # (counted by class below)
+                    res.count('option %s=%s' % (k, v))
         if obs.get('lists') or any('nb' in row for row in obs.get('rows', ())):
             res.count('batch_lists_read')
             if obs.get('nb') or obs.get('pb'):
@@ -974,7 +1403,7 @@ def run(res, tier, have_driver):
         if 'nums' in obs:
             if len(obs['nums']) < L or obs['prev'] or obs['next']:
                 res.nt(key)
-        elif obs.get('rows'):
+        elif obs.get('rows') or obs.get('exc') == 'Unauthorized':
             res.nt(key)
         reqs.append(model_req(L, p, neg_raises(kind, mods)))
     res.sample({'len': cases[0][0], 'params': cases[0][1], 'observation': obss[0]})
@@ -992,11 +1421,23 @@ def run(res, tier, have_driver):
             res.corr_checked += 1
             if mods.get('mode'):
                 d = None if L == 0 else compare_mode(obs, rp['ok'], mods['mode'])
+            elif mods.get('policy') is not None:
+                d = compare_policy(obs, rp['ok'], mods)
             else:
                 d = compare(obs, rp['ok'])
             if d:
                 res.corr_mismatch.append({'case': case_dict(L, p, via, kind, mods),
                                           'impl': obs, 'model': rp['ok'], 'diff': d})
+    # the interpreter model (Render.inx_ with the item guard) on batched loops under a security policy
+    if have_driver:
+        try:
+            n_slice = interp_policy_slice(res, tier)
+            res.rule += ('; policy slice: %d programs (a batched dtml-in over instances under a policy refusing '
+                         'elements of the window, every batch variable printed on every row) compared between the '
+                         'Lean interpreter and the real classes' % n_slice)
+        except Exception:  # noqa
+            import traceback
+            res.harness_errors.append(traceback.format_exc())
     # tiling
     treqs, tw = [], []
     sizes = range(1, 8)
@@ -1054,7 +1495,7 @@ def search_more(res, tier):
             found.append({'case': case_dict(L, p, False, 'list', NOMODS, obs), 'what': f})
         if len(found) > 5:
             return found
-    for gen in (option_cases, mode_cases):
+    for gen in (option_cases, mode_cases, policy_cases):
         for (L, p, via, kind, mods) in gen('thorough', r):
             obs = observe(L, p, via_vars=via, kind=kind, mods=mods)
             for f in oracle(L, p, obs, kind, mods):
